@@ -74,7 +74,9 @@ def check_step(ctx: Ctx, env, state, action, key_int, fresh, tags, exact=True):
     """One Gym-style step judged against the environment's own functional components.
     `fresh(state) -> str|None` says why a state is NOT a freshly drawn initial state."""
     comp = components(env, state, action, jr.key(key_int ^ 0x5A5A), jr.key(key_int ^ 0x1234))
-    eq = tree_equal if exact else tree_close
+    # env.step and the component-wise evaluation are two different XLA programs: float leaves may differ
+    # by reassociation-level rounding (seen: 1 ulp on a HalfCheetah reward); integer / bool leaves exactly
+    eq = (lambda a, b: tree_close(a, b, 1e-6, 1e-7)) if exact else (lambda a, b: tree_close(a, b, 1e-5, 1e-6))
     # precondition of the key-free oracle: components do not depend on their key
     ctx.check(
         eq(comp["nxt"], comp["nxt_b"]) and eq(comp["reward"], comp["reward_b"]) and eq(comp["term"], comp["term_b"]) and eq(comp["obs_nxt"], comp["obs_nxt_b"]),
@@ -474,7 +476,7 @@ def oracle_mujoco_case(env, fresh, tags):
         ctx.check(tree_close(obs, observe(env, state, jr.key(1))), "C01/reset-observation-not-of-returned-state", tags=tags)
         flags = set()
         for i, a in enumerate(case["actions"]):
-            state, obs, r, term, trunc, comp = check_step(ctx, env, state, jnp.asarray(a), case["key"] + 1 + i, fresh, tags, exact=True)
+            state, obs, r, term, trunc, comp = check_step(ctx, env, state, jnp.asarray(a), case["key"] + 1 + i, fresh, tags, exact=False)
             if term and trunc:
                 flags.add("both")
             elif term:
